@@ -250,6 +250,10 @@ theorem prep_table_facts :
     (prepTable.find? (fun r => r.alg == "ES256")).map (fun r => (r.kty, r.crv)) = some ("EC", some "P-256") ∧
     (prepTable.find? (fun r => r.alg == "ES384")).map (fun r => (r.kty, r.crv)) = some ("EC", some "P-384") ∧
     (prepTable.find? (fun r => r.alg == "ES512")).map (fun r => (r.kty, r.crv)) = some ("EC", some "P-521") ∧
+    (prepTable.find? (fun r => r.alg == "ES256")).map (fun r => r.crvStrict) = some true ∧
+    (prepTable.find? (fun r => r.alg == "ES384")).map (fun r => r.crvStrict) = some true ∧
+    (prepTable.find? (fun r => r.alg == "ES512")).map (fun r => r.crvStrict) = some true ∧
+    (prepTable.find? (fun r => r.alg == "ES256K")).map (fun r => (r.crv, r.crvStrict)) = some (some "secp256k1", true) ∧
     (prepTable.find? (fun r => r.alg == "RS256")).map (fun r => r.kty) = some "RSA" ∧
     (prepTable.find? (fun r => r.alg == "RSA-OAEP")).map (fun r => r.kty) = some "RSA" := by decide
 
